@@ -24,7 +24,7 @@ sh('git -C /repo worktree add -q --detach %s main' % wt)
 try:
     env = dict(os.environ, PYTHONPATH=wt)
     eq = os.path.join(wt, '_equiv_tmp.py')
-    open(eq, 'w').write(open(os.path.join(d, 'equiv.py')).read().replace('/tmp/rw_%s' % prop, wt))
+    open(eq, 'w').write(open(os.path.join(d, 'equiv.py')).read().replace('/tmp/rw_%s' % prop, wt).replace('rw_%s' % prop, os.path.basename(wt)))
     r0 = sh('/venv/bin/python %s' % eq, cwd=wt, env=env, timeout=1800)
     r = sh('git -C %s apply %s' % (wt, os.path.join(d, 'patch.diff')))
     if r.returncode != 0:
